@@ -82,9 +82,17 @@ def load_fat() -> list[dict]:
     return _derived("fat.json")
 
 
+def load_twinagg() -> list[dict]:
+    """twin-element variants (tools/build_twinagg.py): every aggregate element doubled with twin predicates"""
+    return _derived("twinagg.json")
+
+
+DERIVED = ("wide", "twin", "fat", "twinagg")
+
+
 def load_all() -> list[dict]:
-    """base + extra + wide + twin + fat"""
-    return load_base() + load_wide() + load_twin() + load_fat()
+    """base + extra + wide + twin + fat + twinagg"""
+    return load_base() + load_wide() + load_twin() + load_fat() + load_twinagg()
 
 
 def load_safe(wide: bool = False) -> list[dict]:
@@ -156,6 +164,26 @@ def predicates_of(text: str) -> list[tuple[str, int]]:
     return sorted(c.preds)
 
 
+def _heads_and_bodies(text: str):
+    """predicates occurring in rule heads / in bodies (of rules, constraints, weak constraints)"""
+    heads, bodies = set(), set()
+    for s in parse(text):
+        if s.ast_type == ASTType.Rule:
+            c = _Preds()
+            c.visit(s.head)
+            heads |= c.preds
+            for lit in s.body:
+                c2 = _Preds()
+                c2.visit(lit)
+                bodies |= c2.preds
+        elif s.ast_type == ASTType.Minimize:
+            for lit in s.body:
+                c2 = _Preds()
+                c2.visit(lit)
+                bodies |= c2.preds
+    return heads, bodies
+
+
 def statements(text: str) -> list[str]:
     """printed statements, without `#program base.`"""
     return [str(s) for s in parse(text) if s.ast_type != ASTType.Program]
@@ -206,6 +234,16 @@ def decl(mode: str, text: str, rng) -> tuple:
     if mode == "empty":
         return [], []
     preds = predicates_of(text)
+    if mode == "outall":
+        # inputs auto-detected, every predicate of the program declared as output: nothing may be thrown away,
+        # so every pass has to work on every rule (with auto-detection and no #show most rules simply vanish)
+        return "auto", [list(p) for p in preds]
+    if mode == "outsinks":
+        # the natural outputs of a program without #show: predicates derived by some head and used in no body;
+        # intermediate predicates stay free to be removed, inlined or projected (falls back to outall)
+        heads, bodies = _heads_and_bodies(text)
+        sinks = [list(p) for p in preds if p in heads and p not in bodies]
+        return "auto", sinks or [list(p) for p in preds]
     if mode == "explicit":
         inp = [list(p) for p in preds if rng.random() < 0.4]
         out = [list(p) for p in preds if rng.random() < 0.4]
